@@ -79,6 +79,10 @@ def seg_tables(ref, root):
 
 
 def apply_tables(e, tabs, root):
+    # (datatype errors are C04's subject; under a profile that swaps a datatype a standard-built element rightly draws one)
+    e["errors"] = [t for t in e["errors"] if t[0] != "datatype"]
+    for s in e["segs"]:
+        s.pop("shape", None)
     for s in e["segs"]:
         par = e["tree"][s["row"] - 1][2]
         pname = root if par == 0 else e["tree"][par - 1][0]
@@ -421,6 +425,31 @@ def validation_events(v, sid, desc, prof, rnd):
         e = c04.observe(m, v, sid, nodes, mode, desc)
         apply_tables(e, tabs, sid)
         out.append(e)
+        # every segment of the profile message validated on its own: validate() of a part follows the profile too
+        def parts(el, pname):
+            for ch in el.children:
+                if ch.classname == "Group":
+                    for x in parts(ch, ch.name):
+                        yield x
+                elif ch.classname == "Segment" and ch.name != "MSH":
+                    yield pname, ch
+        for pname, sg in list(parts(m, sid))[:6]:
+            try:
+                es = c04.observe(sg, v, sg.name, [], mode + "+segment_of_profile_message_alone", desc)
+            except Exception:
+                continue
+            es["errors"] = [t for t in es["errors"] if t[0] != "datatype"]
+            for rec in es["segs"]:
+                rec.pop("shape", None)
+                if rec.get("level") == "field":
+                    key = (pname, sg.name, rec["name"])
+                    if key in tabs:
+                        rec["table"] = tabs[key]
+                        names_ = set(c_[0] for c_ in rec["table"])
+                        rec["kids"] = [k_ for k_ in rec["kids"] if k_ in names_]
+                elif (pname, sg.name) in tabs:
+                    rec["table"] = tabs[(pname, sg.name)]
+            out.append(es)
         # the same text parsed WITHOUT the profile (every element carries the standard structure) and judged against it
         try:
             m2 = parse_message(text)
